@@ -211,6 +211,13 @@ def run_multi(case):
         tabs[name] = (pin, val, prm, sub)
         pin_d[name], val_d[name] = jnp.asarray(pin), jnp.asarray(val)
         prm_d[name] = {k: jnp.asarray(v)[:, None] for k, v in prm.items()}
+    # the three dictionaries have the same keys but are written in independent insertion orders
+    def reorder(d, perm):
+        keys = list(d.keys())
+        return {keys[i % len(keys)]: d[keys[i % len(keys)]] for i in perm if i < len(keys)} | d
+
+    val_d = reorder(val_d, cfg.get("val_order", []))
+    prm_d = reorder(prm_d, cfg.get("prm_order", []))
     kw = {} if cfg["omit_params"] and all(not v for v in prm_d.values()) else {"observed_eq_params_dict": prm_d}
     g = jinns.data.DataGeneratorObservationsMultiPINNs(cfg["b"], pin_d, val_d, key=jax.random.PRNGKey(cfg["key"]), **kw)
     for _ in range(cfg["calls"]):
@@ -238,7 +245,8 @@ def strat_multi():
     def s(draw):
         n = draw(st.one_of(st.integers(1, 10), st.integers(3, 10)))
         b = draw(st.one_of(st.integers(1, n), st.integers(1, max(1, n - 1))))
-        names = draw(st.lists(st.sampled_from(["u", "v", "p", "n1"]), min_size=1, max_size=3, unique=True))
+        names = draw(st.lists(st.sampled_from(["u", "v", "p", "n1"]), min_size=draw(st.sampled_from([1, 2, 2, 2])), max_size=3,
+                              unique=True))
         nets = {}
         for j, nm in enumerate(names):
             if draw(st.integers(0, 2)) == 0:
@@ -250,6 +258,7 @@ def strat_multi():
             nets[names[0]] = {"cin": 1, "cval": 1, "pnames": [], "offset": 10000.0}
         return {"cfg": {"n": n, "b": b, "nets": nets, "key": draw(st.integers(0, 2**31 - 1)),
                         "omit_params": draw(st.booleans()),
+                        "val_order": draw(st.permutations([0, 1, 2])), "prm_order": draw(st.permutations([0, 1, 2])),
                         "calls": draw(st.integers(1, 2)) * math.ceil(n / b) + 1}}
 
     return s()
